@@ -654,6 +654,21 @@ def dumpCol (prop : String) (shape : List Nat) : ColSpec :=
   | some c => c
   | none => { prop := prop, names := indexNames prop shape, unit := .none }
 
+/-- `atom_dump.dump` without `prop_name`: `atom_id` first, then the system's per-atom properties in their order
+    without `atom_id` (`atoms_props.pop(atoms_props.index('atom_id'))`: the first occurrence goes). -/
+def defaultDumpNames (atomsProps : List String) : List String := "atom_id" :: atomsProps.erase "atom_id"
+
+/-- `atom_dump.dump` without `shape` / `table_name`: `atom_id` is a scalar, the derived position variants are
+    3-vectors, every other property has the shape it is stored with. -/
+def defaultDumpShape (name : String) (stored : List Nat) : List Nat :=
+  if name = "atom_id" then [] else if ["spos", "upos", "supos"].contains name then [3] else stored
+
+/-- names and shapes `atom_dump.dump` uses when the caller gives neither (`stored` = the system's per-atom
+    properties with their shapes, `atype` and `pos` included). -/
+def defaultDumpProps (stored : List (String × List Nat)) : List (String × List Nat) :=
+  (defaultDumpNames (stored.map (·.1))).map fun n =>
+    (n, defaultDumpShape n (((stored.find? (·.1 = n)).map (·.2)).getD []))
+
 def hasDup : List Int → Bool
   | [] => false
   | x :: xs => xs.contains x || hasDup xs
